@@ -596,7 +596,8 @@ func simplifyStep(t *Trace, i int) []*Trace {
 
 func (c *checker) build(name string, flags []string, env []string) (string, bool) {
 	bin := filepath.Join(rootDir, ".build", name)
-	args := append([]string{"build", "-tags", "verif"}, flags...)
+	args := append([]string{"build", "-tags", "verif"}, modfileArgs()...)
+	args = append(args, flags...)
 	args = append(args, "-o", bin, ".")
 	cmd := exec.Command(goTool(), args...)
 	cmd.Dir = filepath.Join(rootDir, "sim")
@@ -608,6 +609,29 @@ func (c *checker) build(name string, flags []string, env []string) (string, bool
 		return "", false
 	}
 	return bin, true
+}
+
+// repoDir is the tree the checks build against: /repo, unless VERIF_REPO points
+// at a snapshot of it (background runs that must not see later edits of /repo).
+func repoDir() string {
+	if r := os.Getenv("VERIF_REPO"); r != "" {
+		return r
+	}
+	return "/repo"
+}
+
+// modfileArgs returns the -modfile flag that redirects the replace directive
+// when the repository is not at /repo.
+func modfileArgs() []string {
+	if repoDir() == "/repo" {
+		return nil
+	}
+	mod := "module verifsim\n\ngo 1.24.0\n\nrequire (\n\tgithub.com/Clement-Jean/go-art v0.0.0\n\tgolang.org/x/text v0.23.0\n)\n\nreplace github.com/Clement-Jean/go-art => " + repoDir() + "\n"
+	modfile := filepath.Join(rootDir, ".build", "alt.mod")
+	os.WriteFile(modfile, []byte(mod), 0o644)
+	sum, _ := os.ReadFile(filepath.Join(repoDir(), "go.sum"))
+	os.WriteFile(filepath.Join(rootDir, ".build", "alt.sum"), sum, 0o644)
+	return []string{"-modfile=" + modfile}
 }
 
 func goTool() string {
@@ -1279,7 +1303,7 @@ func (c *checker) buildInstrumented(name string, flags []string) (string, bool, 
 		return "", false, err.Error()
 	}
 	defer os.RemoveAll(copyDir)
-	out, err := exec.Command(inst, "/repo", copyDir).CombinedOutput()
+	out, err := exec.Command(inst, repoDir(), copyDir).CombinedOutput()
 	if err != nil {
 		return "", false, "instrumenting failed: " + tail(string(out), 500)
 	}
@@ -1287,7 +1311,7 @@ func (c *checker) buildInstrumented(name string, flags []string) (string, bool, 
 	mod := "module verifsim\n\ngo 1.24.0\n\nrequire (\n\tgithub.com/Clement-Jean/go-art v0.0.0\n\tgolang.org/x/text v0.23.0\n)\n\nreplace github.com/Clement-Jean/go-art => " + copyDir + "\n"
 	modfile := filepath.Join(rootDir, ".build", name+".mod")
 	os.WriteFile(modfile, []byte(mod), 0o644)
-	sum, _ := os.ReadFile("/repo/go.sum")
+	sum, _ := os.ReadFile(filepath.Join(repoDir(), "go.sum"))
 	os.WriteFile(filepath.Join(rootDir, ".build", name+".sum"), sum, 0o644)
 	bin := filepath.Join(rootDir, ".build", name)
 	args := append([]string{"build", "-modfile=" + modfile, "-tags", "verif verifpoints"}, flags...)
